@@ -1631,7 +1631,15 @@ pub mod simfs {
 
     /// content of a file as this run sees it: in the non-gating fault exploration the planned
     /// read / open fails or delivers torn or corrupt content
-    fn content_with_hard_fault(d: &Arc<Vec<u8>>) -> io::Result<Arc<Vec<u8>>> {
+    fn content_with_hard_fault(key: &str, d: &Arc<Vec<u8>>) -> io::Result<Arc<Vec<u8>>> {
+        // (round 16) a file that failed with the persistent kind of read error keeps failing
+        if world::with(|w| w.eio_path.as_deref() == Some(key)) {
+            world::with(|w| {
+                w.reads_seen += 1;
+                w.event("hard_fault_again", 0, 0);
+            });
+            return Err(io::Error::from_raw_os_error(5));
+        }
         let fault = world::with(|w| {
             w.decide_read_fault();
             let idx = w.reads_seen;
@@ -1660,6 +1668,11 @@ pub mod simfs {
                         w.stats.read_faults_injected += 1;
                         crate::isolate::child_fault_notice();
                     }
+                    if h.salt == world::PERSISTENT_EIO {
+                        // a bad sector, a file whose permissions are wrong: every later read of
+                        // this file fails too (a retry loop does not help)
+                        w.eio_path = Some(key.to_string());
+                    }
                 });
                 // EIO
                 return Err(io::Error::from_raw_os_error(5));
@@ -1683,7 +1696,7 @@ pub mod simfs {
     pub fn read<P: AsRef<ArgPath>>(p: P) -> io::Result<Vec<u8>> {
         let p: &Path = argp(&p);
         let (k, d) = fetch(p.as_ref())?;
-        let data = content_with_hard_fault(&d)?;
+        let data = content_with_hard_fault(&k, &d)?;
         world::with(|w| {
             w.stats.whole_file_reads += 1;
             w.stats.bytes_read += data.len() as u64;
@@ -2029,7 +2042,7 @@ pub mod simfs {
         pub fn open<P: AsRef<ArgPath>>(p: P) -> io::Result<File> {
             let p: &Path = argp(&p);
             let (k, d) = fetch(p.as_ref())?;
-            let d = content_with_hard_fault(&d)?;
+            let d = content_with_hard_fault(&k, &d)?;
             let fd = Fd::open()?;
             let io_seed = world::with(|w| w.decide_open(&k));
             Ok(File {
@@ -2664,8 +2677,18 @@ pub mod simenv {
         match k.as_ref().to_str() {
             Some("CARGO_MANIFEST_DIR") => Ok(world::with(|w| w.image.crate_dir.display().to_string())),
             Some("CARGO_PKG_NAME") => Ok("unic-langid-impl".to_string()),
+            // (round 16) a variable that by its name sets a job / thread count is part of the
+            // machine: CI systems and build wrappers set CARGO_BUILD_JOBS, RAYON_NUM_THREADS, ...
+            Some(name) if jobs_like(name) => match world::with(|w| w.decide_env_jobs(name)) {
+                0 => Err(std::env::VarError::NotPresent),
+                n => Ok(n.to_string()),
+            },
             _ => Err(std::env::VarError::NotPresent),
         }
+    }
+    fn jobs_like(name: &str) -> bool {
+        let u = name.to_ascii_uppercase();
+        ["JOBS", "THREADS", "NPROC", "NCPU", "CPUS", "WORKERS", "PARALLEL"].iter().any(|m| u.contains(m))
     }
     pub fn var_os<K: AsRef<OsStr>>(k: K) -> Option<OsString> {
         var(k).ok().map(OsString::from)
@@ -3063,12 +3086,17 @@ pub mod simthread {
     /// shuttle's `JoinHandle` lacks `is_finished`; this one carries a completion flag
     #[derive(Debug)]
     pub struct JoinHandle<T> {
-        inner: shuttle::thread::JoinHandle<T>,
+        /// (round 16) the thread's body catches its own panic and hands it to `join`, as std does:
+        /// a program that looks at `join().is_err()` and goes on must be able to
+        inner: shuttle::thread::JoinHandle<std::thread::Result<T>>,
         done: std::sync::Arc<std::sync::atomic::AtomicBool>,
     }
     impl<T> JoinHandle<T> {
         pub fn join(self) -> shuttle::thread::Result<T> {
-            self.inner.join()
+            match self.inner.join() {
+                Ok(r) => r,
+                Err(e) => Err(e),
+            }
         }
         pub fn thread(&self) -> &shuttle::thread::Thread {
             self.inner.thread()
@@ -3085,13 +3113,19 @@ pub mod simthread {
             self.0.store(true, std::sync::atomic::Ordering::SeqCst);
         }
     }
-    fn wrap<F, T>(f: F, done: std::sync::Arc<std::sync::atomic::AtomicBool>) -> impl FnOnce() -> T
+    fn wrap<F, T>(f: F, done: std::sync::Arc<std::sync::atomic::AtomicBool>) -> impl FnOnce() -> std::thread::Result<T>
     where
         F: FnOnce() -> T,
     {
         move || {
             let _g = SetOnDrop(done);
-            f()
+            let r = std::panic::catch_unwind(std::panic::AssertUnwindSafe(f));
+            if r.is_err() {
+                // the process goes on after a thread has panicked (std prints the message and
+                // nothing else happens unless somebody joins the thread)
+                crate::world::try_with(|w| w.stats.thread_panics_survived += 1);
+            }
+            r
         }
     }
     pub fn spawn<F, T>(f: F) -> JoinHandle<T>
